@@ -324,12 +324,17 @@ pub trait Labels {
     }
 
     fn labels(&self) -> Vec<Self::Elem> {
-        self.label_set()
+        let mut labels = self
+            .label_set()
             .into_iter()
             .flatten()
             .collect::<HashSet<_>>()
             .into_iter()
-            .collect()
+            .collect::<Vec<_>>();
+        // sorted: the iteration order of a hash set changes from call to call, and the order of
+        // the classes decides e.g. how a one-vs-all model breaks ties
+        labels.sort();
+        labels
     }
 
     fn combined_labels<T>(&self, other: &T) -> Vec<Self::Elem>
